@@ -408,8 +408,10 @@ func getPeerNsNameFormat(peer Peer) string {
 
 // isPeerFocusWorkload returns true if focus-workload flag is not used (each peer is included),
 // or if the focus-workload is equal to peer's name
+// (an ip-block is not a workload: its name is empty and its namespace/name form is "/")
 func (ca *ConnlistAnalyzer) isPeerFocusWorkload(peer Peer) bool {
-	return ca.focusWorkload == "" || peer.Name() == ca.focusWorkload || getPeerNsNameFormat(peer) == ca.focusWorkload
+	return ca.focusWorkload == "" || (!peer.IsPeerIPType() &&
+		(peer.Name() == ca.focusWorkload || getPeerNsNameFormat(peer) == ca.focusWorkload))
 }
 
 func convertEvalPeersToConnlistPeer(peers []eval.Peer) []Peer {
